@@ -134,6 +134,48 @@ func init() {
 			case "refused":
 				relays = append(relays, nil)
 				ups.Data = append(ups.Data, mkUpstream(fmt.Sprintf("tcp://localhost:%d", freePort())))
+			case "stalls":
+				// a real server behind a relay that passes the first request and every answer, then nothing more: the peer answers the
+				// announce request and goes silent before the upgrade
+				url, stop, err := startServer("plain-socket", serverCfg("good", false), server.Channels{&tagChannel{tag: byte(i), hits: &hits[i]}})
+				if err != nil {
+					panic("verifharness: server start: " + err.Error())
+				}
+				stops = append(stops, stop)
+				target := strings.Replace(strings.TrimPrefix(url, "tcp://"), "localhost", "127.0.0.1", 1)
+				ln, err := net.Listen("tcp", "127.0.0.1:0")
+				if err != nil {
+					panic(err)
+				}
+				stops = append(stops, func() { ln.Close() })
+				go func() {
+					for {
+						c, err := ln.Accept()
+						if err != nil {
+							return
+						}
+						go func(c net.Conn) {
+							t, err := net.Dial("tcp", target)
+							if err != nil {
+								return
+							}
+							go io.Copy(c, t) // answers pass; when the server gives up the client still hears nothing more
+							var seen []byte
+							b := make([]byte, 1)
+							for !strings.HasSuffix(string(seen), "\r\n\r\n") {
+								if _, err := c.Read(b); err != nil {
+									return
+								}
+								seen = append(seen, b[0])
+							}
+							t.Write(seen)
+							// everything after the first request is swallowed
+						}(c)
+					}
+				}()
+				relays = append(relays, nil)
+				p := ln.Addr().String()
+				ups.Data = append(ups.Data, mkUpstream("tcp://localhost:"+p[strings.LastIndex(p, ":")+1:]))
 			case "hserror", "silent":
 				ln, err := net.Listen("tcp", "127.0.0.1:0")
 				if err != nil {
@@ -184,9 +226,57 @@ func init() {
 			l.Forward = &p
 		}
 		var out []Tok
+		oneConn := func() []Tok {
+			app, local := memPipe(0, 0)
+			done := make(chan struct{})
+			go func() { l.HandleConnection(local); close(done) }()
+			defer func() {
+				app.Close()
+				select {
+				case <-done:
+				case <-time.After(500 * time.Millisecond):
+				}
+			}()
+			app.SetReadDeadline(time.Now().Add(4 * time.Second))
+			buf := make([]byte, 1)
+			_, err := io.ReadFull(app, buf)
+			switch {
+			case err == nil && buf[0] == 0xF0:
+				return []Tok{TW("fwd")}
+			case err == nil:
+				return []Tok{TW("up"), TIn(int(buf[0]))}
+			}
+			select {
+			case <-done:
+				return []Tok{TW("fail")}
+			case <-time.After(200 * time.Millisecond):
+				return []Tok{TW("hang")}
+			}
+		}
+		parallel := 0
 		for i := 3 + n; i < len(a); {
 			switch a[i].W {
 			case "conn":
+				if parallel > 1 {
+					// the next `parallel` local connections arrive at the same time
+					k := 0
+					for i+k < len(a) && a[i+k].W == "conn" && k < parallel {
+						k++
+					}
+					res := make([][]Tok, k)
+					var wg sync.WaitGroup
+					for j := 0; j < k; j++ {
+						wg.Add(1)
+						go func(j int) { defer wg.Done(); res[j] = oneConn() }(j)
+					}
+					wg.Wait()
+					for _, r := range res {
+						out = append(out, r...)
+					}
+					parallel = 0
+					i += k
+					continue
+				}
 				app, local := memPipe(0, 0)
 				done := make(chan struct{})
 				go func() { l.HandleConnection(local); close(done) }()
@@ -221,7 +311,11 @@ func init() {
 				time.Sleep(30 * time.Millisecond)
 				i++
 			case "wait":
-				time.Sleep(time.Duration(a[i+1].I) * time.Millisecond)
+				if a[i+1].I < 0 {
+					parallel = int(-a[i+1].I) // wait -k: the next k `conn` operations run concurrently
+				} else {
+					time.Sleep(time.Duration(a[i+1].I) * time.Millisecond)
+				}
 				i += 2
 			default:
 				panic("verifharness: bad c16 op")
